@@ -3,10 +3,11 @@
    address.Address, signature.PublicKey / RawSignature, db/api.TypedHash,
    runtime/transaction.artifactKind, keyformat.PreHashed):
    "if len(data) != Size { return ErrMalformed }; copy(x[:], data)".
-   Decode returns a bool and may PANIC (data[0] on an empty key; the explicit
-   panic("key format: malformed input") on a short key with a matching prefix;
-   panic("... number of values greater than layout")).  The model keeps those
-   panics: [Ok None] is "return false", [Ok (Some vs)] is "return true".
+   Decode returns a bool and may PANIC (panic("... number of values greater than
+   layout"); before fix 4b7c32a also data[0] on an empty key and the explicit
+   panic("key format: malformed input") on a short key with a matching prefix).
+   The model keeps the panics: [Ok None] is "return false", [Ok (Some vs)] is
+   "return true".
    The value pointers passed by the caller are assumed to have the types of the
    layout (checkSize / the type switch default are programmer errors that do
    not depend on the input).  Executable definitions only. *)
@@ -81,13 +82,26 @@ Fixpoint kf_elems (elems : list elem) (data : bytes) (ksize offset : N) : M (opt
     end
   end.
 
-(* key_format.go:236-300 *)
+(* key_format.go Decode as of the pinned tree (after fix 4b7c32a): an empty key and a
+   key shorter than the format do not match (return false); only the
+   programmer error "more values than layout" still panics *)
 Definition kf_decode (prefix : N) (layout : list elem) (nvals : N) (data : bytes)
   : M (option (list kval)) :=
-  b0 <- lift (index data 0) ;;                                       (* :237 data[0] *)
+  if glen data =? 0 then ret None else                               (* len(data) == 0 || ... *)
+  b0 <- lift (index data 0) ;;                                       (* data[0] *)
   if negb (b0 =? prefix) then ret None else
-  if N.of_nat (length layout) <? nvals then lift Panic else          (* :241 *)
-  if glen data <? kf_size layout then lift Panic else                (* :244 *)
+  if N.of_nat (length layout) <? nvals then lift Panic else          (* panic("... number of values greater than layout") *)
+  if glen data <? kf_size layout then ret None else                  (* too short: does not match *)
+  kf_elems (firstn (N.to_nat nvals) layout) data (kf_size layout) 1.
+
+(* the function BEFORE the fix (key_format.go:236-300 at 00b6533): data[0] on an
+   empty key and an explicit panic("key format: malformed input") on a short key *)
+Definition kf_decode_original (prefix : N) (layout : list elem) (nvals : N) (data : bytes)
+  : M (option (list kval)) :=
+  b0 <- lift (index data 0) ;;
+  if negb (b0 =? prefix) then ret None else
+  if N.of_nat (length layout) <? nvals then lift Panic else
+  if glen data <? kf_size layout then lift Panic else
   kf_elems (firstn (N.to_nat nvals) layout) data (kf_size layout) 1.
 
 (* New() panics when a layout has two variable-size elements *)
